@@ -286,6 +286,8 @@ pub fn bfs<const K: usize>(
             let mut hist2 = hist.clone();
             hist2.push(a.clone());
             let rec = || json!({"K": K, "history": hist2.iter().map(|x| format!("{:?}", x)).collect::<Vec<_>>(), "state_before": format!("{:?}", before.nodes)});
+            // read-only queries before the action (a cached answer must not survive the mutation that follows)
+            let _ = catch(|| (t2.depth(), t2.len(), t2.num_terminals()));
             let res = apply(&mut t2, &a);
             let (res, new_idx) = match res {
                 Err(msg) => {
@@ -481,6 +483,19 @@ pub fn edge_calls<const K: usize>(t0: &Tree<u8, K>, probe_len: usize) -> Result<
             }
         }
     }
+    // clone_from into an empty tree (no root of its own) and into a one-node tree
+    for dest in [Tree::<u8, K>::new(), Tree::<u8, K>::with_root(5, 1)] {
+        let mut d = dest;
+        let r = catch(|| {
+            d.clone_from(t0);
+            canon(&d, probe_len)
+        });
+        match r {
+            Ok(c) if c == before => {}
+            Ok(_) => return Err(("clone_from", "clone_from did not produce the same arena (root, indices, links, values or future indices differ)".into())),
+            Err(m) => return Err(("clone_from", format!("clone_from (or reading its result) panicked: {m}"))),
+        }
+    }
     // add_root on a non-empty tree
     let mut t = t0.clone();
     match catch(|| t.add_root(9)) {
@@ -609,7 +624,10 @@ pub fn run(tier: Tier) -> Report {
     };
     run_k::<2>(d2, ml, &mut rep, true);
     run_k::<3>(d3, ml, &mut rep, true);
-    rep.set("bound", format!("histories of length <= {d2} (K=2) / {d3} (K=3) from the single-root tree, len <= {ml}, every index argument in 0..=max_index+1, every label, values in {{0,1}}"));
+    // a larger branching factor at a smaller depth (labels that are not cyclic neighbours exist from K = 4 on)
+    let d4 = d3 - 1;
+    run_k::<4>(d4, 5, &mut rep, true);
+    rep.set("bound", format!("histories of length <= {d2} (K=2) / {d3} (K=3) / {d4} (K=4, len <= 5) from the single-root tree, len <= {ml}, every index argument in 0..=max_index+1, every label, values in {{0,1}}"));
     rep.assume("states are merged only when root, live nodes and the probed free-list order coincide (DESIGN A4)");
     rep.assume("merge_child_with_parent is only called where its documented assert holds (existing index, exactly one child)");
     rep
